@@ -54,3 +54,50 @@ def wcag_label(ratio, large):
     if ratio >= aa:
         return "AA"
     return "FAIL"
+
+
+# ---------------------------------------------------------------- CSS Color Level 3
+
+def css_hue_to_rgb(m1, m2, h):
+    h = ite(h < 0, h + 1, h)
+    h = ite(h > 1, h - 1, h)
+    return ite(h * 6 < 1, m1 + (m2 - m1) * h * 6,
+               ite(h * 2 < 1, m2,
+                   ite(h * 3 < 2, m1 + (m2 - m1) * (Fraction(2, 3) - h) * 6, m1)))
+
+
+def css_hsl_exact(hue_deg, s, l):
+    """CSS Color 3 section 4.2.4: (hue in degrees, any real; s, l in [0,1]) -> exact r,g,b in [0,1]."""
+    q = M.floor(hue_deg / 360)
+    h = hue_deg / 360 - q          # ((hue mod 360) + 360) mod 360, normalised to [0,1)
+    m2 = ite(l <= Fraction(1, 2), l * (s + 1), l + s - l * s)
+    m1 = l * 2 - m2
+    return (css_hue_to_rgb(m1, m2, h + Fraction(1, 3)), css_hue_to_rgb(m1, m2, h), css_hue_to_rgb(m1, m2, h - Fraction(1, 3)))
+
+
+def source_over(c, alpha, bg):
+    """per-channel source-over compositing of an opaque-background blend, all on the 0..255 scale"""
+    return tuple(alpha * ci + (1 - alpha) * bi for ci, bi in zip(c, bg))
+
+
+def nearest8(x):
+    """concrete: set of acceptable nearest 8-bit values (ties accept both)"""
+    import math
+    f = math.floor(x)
+    if x - f < 0.5:
+        return {f}
+    if x - f > 0.5:
+        return {f + 1}
+    return {f, f + 1}
+
+
+def css_keywords():
+    """148 CSS Color 3 keywords (+ rebeccapurple) -> (r,g,b), from tinycss2's own table (third party, CSS-conformant)."""
+    import tinycss2.color3 as c3
+    out = {}
+    for k, v in c3._COLOR_KEYWORDS.items():
+        if k in ("currentcolor", "transparent"):
+            continue
+        out[k] = (round(v.red * 255), round(v.green * 255), round(v.blue * 255))
+    out.setdefault("rebeccapurple", (0x66, 0x33, 0x99))
+    return out
